@@ -200,10 +200,10 @@ DUR_CLSE = ('C11', 'duration', 'implies(%s, G.now - old(G.now) <= 7 * %s + 6 * %
 contract('AdbDevice._okay',
          real=dev('_okay'),
          params={'self': 'obj:AdbDevice', 'adb_info': 'obj:AdbInfo'},
-         props=['C04', 'C01', 'C12', 'C11'],
+         props=['C04', 'C01', 'C12', 'C11', 'C15'],
          requires=STREAM_OK[:1] + [NOLOCK],
          modifies=IO_MOD,
-         ensures=[('C04', 'one-OKAY-with-local-then-remote-id', "G.peer_rx == old(G.peer_rx) + frame(OKAY, adb_info.local_id, adb_info.remote_id, b'')"),
+         ensures=[('C04,C15', 'one-OKAY-with-local-then-remote-id', "G.peer_rx == old(G.peer_rx) + frame(OKAY, adb_info.local_id, adb_info.remote_id, b'')"),
                   RELEASED, MONO_IO, DUR_OKAY],
          raises={'struct.error': [('C04', 'nothing-written', 'G.peer_rx == old(G.peer_rx)'), RELEASED, MONO_IO, DUR_OKAY], 'AdbTimeoutError': [RELEASED, MONO_IO, DUR_OKAY],
                  '*': [RELEASED, MONO_IO, DUR_OKAY]})
@@ -212,7 +212,7 @@ contract('AdbDevice._read_until',
          real=dev('_read_until'),
          params={'self': 'obj:AdbDevice', 'expected_cmds': 'cmdset', 'adb_info': 'obj:AdbInfo'},
          returns='tuple[bytes,bytes]',
-         props=['C04', 'C01', 'C12', 'C08', 'C10', 'C11'],
+         props=['C04', 'C01', 'C12', 'C08', 'C10', 'C11', 'C15'],
          requires=STREAM_OK + [NOLOCK],
          modifies=IO_MOD + RD_MOD,
          ghost_exit=[('G.sgot', 'store(G.sgot, {0}, G.sgot[{0}] + ite(result[0] == WRTE, len(result[1]), 0))'.format(LID))],
@@ -221,7 +221,7 @@ contract('AdbDevice._read_until',
                   ('C01,C04,C08', 'next-delivered-packet', 'result[0] == D_cmd({0}, {1}) and result[1] == D_data({0}, {1})'.format(LID, DI0)),
                   ('C01,C04,C08', 'one-packet-consumed', 'G.di == store(old(G.di), {0}, {1} + 1)'.format(LID, DI0)),
                   ('C01,C04,C10', 'command-is-expected', 'result[0] in expected_cmds'),
-                  ('C04', 'one-OKAY-per-delivered-WRTE-none-otherwise',
+                  ('C04,C15', 'one-OKAY-per-delivered-WRTE-none-otherwise',
                    "G.peer_rx == old(G.peer_rx) + ite(result[0] == WRTE, frame(OKAY, adb_info.local_id, adb_info.remote_id, b''), b'')"),
                   RELEASED, MONO, DUR_READ_UNTIL],
          raises=exc_all([RELEASED, MONO, DUR_READ_UNTIL]))
@@ -229,10 +229,10 @@ contract('AdbDevice._read_until',
 contract('AdbDevice._clse',
          real=dev('_clse'),
          params={'self': 'obj:AdbDevice', 'adb_info': 'obj:AdbInfo'},
-         props=['C04', 'C12', 'C08', 'C09', 'C11'],
+         props=['C04', 'C12', 'C08', 'C09', 'C11', 'C15'],
          requires=STREAM_OK + [NOLOCK],
          modifies=IO_MOD + RD_MOD,
-         ensures=[('C04', 'exactly-one-CLSE-sent', "G.peer_rx == old(G.peer_rx) + frame(CLSE, adb_info.local_id, adb_info.remote_id, b'')"),
+         ensures=[('C04,C15', 'exactly-one-CLSE-sent', "G.peer_rx == old(G.peer_rx) + frame(CLSE, adb_info.local_id, adb_info.remote_id, b'')"),
                   ('C04', 'device-CLSE-received', 'D_cmd({0}, {1}) == CLSE and G.di == store(old(G.di), {0}, {1} + 1)'.format(LID, DI0)),
                   ('C08,C09', 'no-sync-input-consumed', 'G.sgot == old(G.sgot)'),
                   RELEASED, MONO, DUR_CLSE],
@@ -245,7 +245,7 @@ contract('AdbDevice._open',
          real=dev('_open'),
          params={'self': 'obj:AdbDevice', 'destination': 'bytes', 'transport_timeout_s': 'opt[real]', 'read_timeout_s': 'real', 'timeout_s': 'opt[real]'},
          returns='obj:AdbInfo',
-         props=['C14', 'C04', 'C01', 'C11', 'C12', 'C06'],
+         props=['C14', 'C04', 'C01', 'C11', 'C12', 'C06', 'C15'],
          requires=['self._local_id >= 0 and self._local_id < 2**32', 'G.rpos >= 0 and G.rpos <= len(G.dev)', NOLOCK],
          modifies=OPEN_MOD,
          ghost_exit=[('G.spos', 'store(G.spos, self._local_id, G.sgot[self._local_id])'),
@@ -258,7 +258,7 @@ contract('AdbDevice._open',
                   ('C14,C04', 'next-id-with-wrap', 'self._local_id == %s' % NEXTID),
                   ('C14,C04', 'id-in-1..2^32-1', 'self._local_id >= 1 and self._local_id <= 2**32 - 1'),
                   ('C14,C04', 'stream-uses-that-id', 'same(result.local_id, self._local_id)'),
-                  ('C04', 'OPEN-with-fresh-id-arg1-0-NUL-terminated', "G.peer_rx == old(G.peer_rx) + frame(OPEN, self._local_id, 0, destination + b'\\0')"),
+                  ('C04,C15', 'OPEN-with-fresh-id-arg1-0-NUL-terminated', "G.peer_rx == old(G.peer_rx) + frame(OPEN, self._local_id, 0, destination + b'\\0')"),
                   ('C04', 'remote-id-is-the-one-announced-in-OKAY',
                    'not isnone(result.remote_id) and val(result.remote_id) == D_a0({0}, old(G.di)[{0}]) and D_cmd({0}, old(G.di)[{0}]) == OKAY'.format(NEXTID)),
                   ('C04,C01', 'one-packet-consumed', 'G.di == store(old(G.di), {0}, old(G.di)[{0}] + 1)'.format(NEXTID)),
@@ -283,7 +283,7 @@ contract('AdbDevice._read_until_close',
          params={'self': 'obj:AdbDevice', 'adb_info': 'obj:AdbInfo'},
          gen={'elem': 'D_data({0}, {1} + _i)'.format(LID, DI0), 'joined': 'catD({0}, {1}, _n)'.format(LID, DI0),
               'facts': ['D_cmd({0}, {1} + _i) == WRTE'.format(LID, DI0)]},
-         props=['C01', 'C04', 'C11', 'C12'],
+         props=['C01', 'C04', 'C11', 'C12', 'C15'],
          requires=STREAM_OK + [NOLOCK],
          modifies=IO_MOD + RD_MOD,
          yield_havoc=[],
@@ -293,7 +293,7 @@ contract('AdbDevice._read_until_close',
                    ('C01,C04', 'position', 'G.di == store(old(G.di), {0}, {1} + _yi + 1)'.format(LID, DI0))],
          ensures=[('C01', 'stops-at-the-first-CLSE', 'D_cmd({0}, {1} + _n) == CLSE'.format(LID, DI0)),
                   ('C01,C04', 'consumed-n-payloads-and-the-CLSE', 'G.di == store(old(G.di), {0}, {1} + _n + 1)'.format(LID, DI0)),
-                  ('C04', 'one-OKAY-per-WRTE-then-exactly-one-CLSE', 'G.peer_rx == old(G.peer_rx) + rep(%s, _n) + %s' % (OKAYF, CLSEF)),
+                  ('C04,C15', 'one-OKAY-per-WRTE-then-exactly-one-CLSE', 'G.peer_rx == old(G.peer_rx) + rep(%s, _n) + %s' % (OKAYF, CLSEF)),
                   RELEASED, MONO],
          raises=exc_all([RELEASED, MONO]),
          loops={0: dict(invariant=[
